@@ -4,16 +4,17 @@ PROPS = {}
 PROPS["C19"] = dict(
     driver="c19",
     props_file="Props/C19.v",
-    coq_targets=["Record/Check.vo"],
+    coq_targets=["Record/Check.vo", "Record/Sound.vo"],
     check_module="Record.Check",
     check_fn="check_case",
-    streams=[dict(name="main", quick=240, thorough=6000)],
+    streams=[dict(name="main", quick=240, thorough=6000), dict(name="wrap", quick=60, thorough=1000),
+             dict(name="notx", quick=100, thorough=2000)],
     rule="histories of 4-18 (thorough: 4-44) steps = transactions of 1-4 create-record messages by 3 creators "
          "(contents from a pool of 4 so byte-identical records recur; ~10% invalid messages) and block boundaries; "
-         "non-trivial = the same (creator, contents) is created at least twice; distinct = by hash of the history",
+         "stream 'wrap' presets the 32-bit counter 1..6 below 2^32 so that it wraps inside the history; stream 'notx' executes two thirds of the transactions with empty tx bytes (messages run by a governance proposal), so byte-identical records share the tx hash and only the counter separates their ids; non-trivial = the same (creator, contents) is created at least twice; distinct = by hash of the history",
     codes={0: "readback-or-duplicate-id"},
     explain={0: "a query by a returned id did not return exactly the submitted record, or an id was returned twice"},
     trusted_base=["SHA-256 modelled as injective: the id is identified with its pre-image (record bytes, counter); "
                   "the harness checks on every creation that the real id is sha256 of exactly that pre-image"],
-    assumptions=["distinct transactions have distinct tx bytes (the harness numbers them)"],
+    assumptions=["signed transactions have distinct tx bytes (the harness numbers them); messages executed outside a transaction share the empty tx bytes"],
 )
